@@ -155,11 +155,11 @@ the browsing host `h` is up, brings PTR(`s`) to `h` — unless `h` never process
 one delivery of the exchange (question to the owner, or answer to `h`) is the missing one -/
 theorem query_chain {tr : Trace} {endT : Int} (h4 : K4 Cfg.paper tr endT = true)
     {s : Svc} {β t1 : Int} (hA : Announced tr s β t1) {h : Nat} (hopen : neverClosed tr h = true)
-    (hno : ∀ e ∈ dlvs tr, e.h = h → pos s e.items = false)
+    {X : Int} (hno : ∀ e ∈ dlvs tr, e.h = h → X < e.t → pos s e.items = false)
     {tb : Int} (hupb : upAt tr h tb = true)
     {sq : SendE} (hsq : sq ∈ sends tr) (hdst : sq.dst = none) {known : List Svc}
     (hq : Item.query s.ty known false ∈ sq.items) (hk : known.contains s = false)
-    (hlo1 : t1 + 1350 ≤ sq.t) (hlo2 : tb + 1001 ≤ sq.t) (hend : sq.t + 1400 ≤ endT) :
+    (hlo1 : t1 + 1350 ≤ sq.t) (hlo2 : tb + 1001 ≤ sq.t) (hX : X + 1001 ≤ sq.t) (hend : sq.t + 1400 ≤ endT) :
     ∃ o ∈ missing Cfg.paper tr endT, sq.t - 1000 ≤ o.t ∧ o.t ≤ sq.t + 1300 := by
   rcases k7b_reach (endT := endT) hsq (by rw [hdst]; rfl) (upBefore_of_upAt (t' := sq.t) hA.ownerUp (by omega)) hA.ownerOpen (by omega) with
     ⟨eq, heq, heqh, heqi, hq1, hq2⟩ | ⟨o, ho, hot⟩
@@ -170,9 +170,9 @@ theorem query_chain {tr : Trace} {endT : Int} (h4 : K4 Cfg.paper tr endT = true)
       · exact hrd
       · cases hf
     rcases k7b_reach (endT := endT) hsr (by rw [hrdst]; rfl) (upBefore_of_upAt (t' := sr.t) hupb (by omega)) hopen (by omega) with
-      ⟨er, her, herh, heri, _, _⟩ | ⟨o, ho, hot⟩
+      ⟨er, her, herh, heri, her1, _⟩ | ⟨o, ho, hot⟩
     · exfalso
-      have := hno er her herh
+      have := hno er her herh (by omega)
       rw [heri, posFull_pos hpf] at this
       cases this
     · exact ⟨o, ho, by omega, by omega⟩
@@ -182,12 +182,11 @@ theorem query_chain {tr : Trace} {endT : Int} (h4 : K4 Cfg.paper tr endT = true)
 closed: either the host was up when the second announcement left (then it processes the second or the third), or it came
 up later and its browser's third and fourth start-up opportunities each bring an answer unless a delivery is lost — and
 only one is. -/
-theorem held_of_announced {tr : Trace} {endT : Int} (hwf : WFP tr endT)
+theorem pos_after_announce {tr : Trace} {endT : Int} (hwf : WFP tr endT)
     (h3 : K3 Cfg.paper tr endT = true) (h4 : K4 Cfg.paper tr endT = true) (h7 : K7 Cfg.paper tr endT = true)
     (hsettle : lastChange tr + 16000 ≤ endT) {s : Svc} {β t1 : Int} (hA : Announced tr s β t1)
     {tb : Int} {b : Br} (hb : (tb, b) ∈ browses tr) (hopen : neverClosed tr b.host = true) (hty : s.ty = b.ty) :
-    held tr b.host s = true := by
-  have key : ∃ e ∈ dlvs tr, e.h = b.host ∧ pos s e.items = true ∧ β + 225 ≤ e.t := by
+    ∃ e ∈ dlvs tr, e.h = b.host ∧ pos s e.items = true ∧ β + 225 ≤ e.t := by
     have hbase := hA.baseLe
     cases hup : upBefore tr b.host (β + 225) with
     | true =>
@@ -222,17 +221,130 @@ theorem held_of_announced {tr : Trace} {endT : Int} (hwf : WFP tr endT)
         obtain ⟨q3, hq3, hq3d, hq3lo, hq3hi, kn3, hq3i, hq3k⟩ := k3opp_query h7 hno o3
         obtain ⟨q4, hq4, hq4d, hq4lo, hq4hi, kn4, hq4i, hq4k⟩ := k3opp_query h7 hno o4
         have hreg := hA.regBase
-        obtain ⟨m3, hm3, hm3a, hm3b⟩ := query_chain h4 hA hopen hno hupb hq3 hq3d (hty ▸ hq3i) hq3k
-          (by omega) (by omega) (by omega)
-        obtain ⟨m4, hm4, hm4a, hm4b⟩ := query_chain h4 hA hopen hno hupb hq4 hq4d (hty ▸ hq4i) hq4k
-          (by omega) (by omega) (by omega)
+        obtain ⟨m3, hm3, hm3a, hm3b⟩ := query_chain h4 hA hopen (X := tb) (fun e he heh _ => hno e he heh) hupb hq3 hq3d
+          (hty ▸ hq3i) hq3k (by omega) (by omega) (by omega) (by omega)
+        obtain ⟨m4, hm4, hm4a, hm4b⟩ := query_chain h4 hA hopen (X := tb) (fun e he heh _ => hno e he heh) hupb hq4 hq4d
+          (hty ▸ hq4i) hq4k (by omega) (by omega) (by omega) (by omega)
         have := k7b_unique h7 hm3 hm4
         rw [this] at hm3b
         omega
-  obtain ⟨e, he, heh, hp, hlate⟩ := key
+
+theorem held_of_announced {tr : Trace} {endT : Int} (hwf : WFP tr endT)
+    (h3 : K3 Cfg.paper tr endT = true) (h4 : K4 Cfg.paper tr endT = true) (h7 : K7 Cfg.paper tr endT = true)
+    (hsettle : lastChange tr + 16000 ≤ endT) {s : Svc} {β t1 : Int} (hA : Announced tr s β t1)
+    {tb : Int} {b : Br} (hb : (tb, b) ∈ browses tr) (hopen : neverClosed tr b.host = true) (hty : s.ty = b.ty) :
+    held tr b.host s = true := by
+  obtain ⟨e, he, heh, hp, hlate⟩ := pos_after_announce hwf h3 h4 h7 hsettle hA hb hopen hty
   apply held_true hwf.sorted he heh hp
   intro g hg _ hgb
   have := hA.byeEarly g hg hgb
   omega
+
+/-! ### stability: the PTR of a registered instance does not expire on a browsing host -/
+
+theorem effTtl_paper (ttl : Nat) : ∃ e : Int, 1125 ≤ e ∧ effTtl Cfg.paper ttl = e * 1000 ∧ effTtl Cfg.paper ttl / 1000 = e := by
+  refine ⟨((max ttl 1125 : Nat) : Int), ?_, rfl, ?_⟩
+  · have : 1125 ≤ max ttl 1125 := Nat.le_max_right _ _
+    omega
+  · unfold effTtl
+    exact Int.mul_ediv_cancel _ (by decide)
+
+/-- **Freshness (KF) from the refresh contract.**  On a never-closed host with a browser of type(`s`), the last PTR(`s`)
+processed while `s` is registered is younger than its TTL at the end of the window.  Otherwise that PTR `x` (positive, processed
+no earlier than the second announcement) is still the last one a full TTL later; K3b then gives two questions for the type
+not listing `s` — around 75 % and 85 % of `x`'s life, or, for a browser that started when `x` was already older, its third and
+fourth start-up questions; each exchange (question to the owner, K4's answer back) brings a PTR(`s`) later than `x` — impossible —
+or loses one delivery, and the two exchanges are more than 5 s apart: two different missing deliveries contradict K7. -/
+theorem unexpired_of_refresh {tr : Trace} {endT : Int} (hwf : WFP tr endT)
+    (h3 : K3 Cfg.paper tr endT = true) (h3b : K3b Cfg.paper tr endT = true) (h4 : K4 Cfg.paper tr endT = true)
+    (h7 : K7 Cfg.paper tr endT = true)
+    (hsettle : lastChange tr + 16000 ≤ endT) {s : Svc} {β t1 : Int} (hA : Announced tr s β t1)
+    {tb : Int} {b : Br} (hb : (tb, b) ∈ browses tr) (hopen : neverClosed tr b.host = true) (hty : s.ty = b.ty) :
+    unexpired Cfg.paper tr b.host s endT 0 = true := by
+  unfold unexpired
+  cases hl : lastSome (heldEv b.host s) tr with
+  | none => rfl
+  | some c =>
+    obtain ⟨ttl, t0⟩ := c
+    simp only [decide_eq_true_eq]
+    by_cases hlt : endT < t0 + effTtl Cfg.paper ttl + 0
+    · exact hlt
+    exfalso
+    obtain ⟨a, ha, hac, hmax⟩ := lastSome_sorted _ tr _ hwf.sorted hl
+    obtain ⟨x, rfl, hxh, rfl, full, hpx⟩ := heldEv_some hac
+    have hx : x ∈ dlvs tr := mem_dlvs.mpr ha
+    simp only at hmax
+    -- no PTR(s) is processed by the host after x
+    have hnoP : ∀ y ∈ dlvs tr, y.h = b.host → x.t < y.t → ptrOf s y.items = none := by
+      intro y hy hyh hlt'
+      cases hp : ptrOf s y.items with
+      | none => rfl
+      | some v =>
+        have := hmax _ (mem_dlvs.mp hy) (by rw [heldEv_dlv hyh, hp]; simp)
+        simp only at this
+        omega
+    have hnoPos : ∀ y ∈ dlvs tr, y.h = b.host → x.t < y.t → pos s y.items = false := by
+      intro y hy hyh hlt'
+      unfold pos
+      rw [hnoP y hy hyh hlt']
+    -- x is at least as late as the announcement that reached the host
+    obtain ⟨e0, he0, he0h, he0p, he0t⟩ := pos_after_announce hwf h3 h4 h7 hsettle hA hb hopen hty
+    have hbase : β + 225 ≤ x.t := by
+      obtain ⟨ttl0, full0, hp0, _⟩ := pos_iff.mp he0p
+      have := hmax _ (mem_dlvs.mp he0) (by rw [heldEv_dlv he0h, hp0]; simp)
+      simp only at this
+      omega
+    have httl : 0 < ttl := by
+      rcases Nat.eq_zero_or_pos ttl with rfl | h
+      · have := hA.byeEarly x hx (bye_iff.mpr ⟨full, hpx⟩)
+        omega
+      · exact h
+    obtain ⟨e, he, hE, hdiv⟩ := effTtl_paper ttl
+    rw [hE] at hlt
+    obtain ⟨k1, k2⟩ := k3b_of h3b hb hopen hx hxh hpx httl hty
+    rw [hdiv] at k1 k2
+    have hupx : upAt tr b.host x.t = true := hxh ▸ (k7a_of h7 hx).1
+    have hupb : upAt tr b.host tb = true := hwf.browse_up _ hb
+    have htb : tb ≤ lastChange tr := le_lastChange (mem_browses.mp hb) rfl
+    have hreg := hA.regBase
+    by_cases hcase : tb ≤ x.t + 750 * e
+    · -- the browser was there when x reached 75 % of its life
+      have w1 := refreshWindow_early hcase false
+      have w2 := refreshWindow_early hcase true
+      simp only [Bool.false_eq_true, if_false] at w1
+      simp only [if_true] at w2
+      have o1 := k3bAt_of k1 (by rw [w1]; simp only; omega) hnoP
+      have o2 := k3bAt_of k2 (by rw [w2]; simp only; omega) hnoP
+      rw [w1] at o1
+      rw [w2] at o2
+      simp only at o1 o2
+      obtain ⟨q1, hq1, hq1d, hq1lo, hq1hi, kn1, hq1i, hq1k⟩ := refreshOpp_query h7 o1
+      obtain ⟨q2, hq2, hq2d, hq2lo, hq2hi, kn2, hq2i, hq2k⟩ := refreshOpp_query h7 o2
+      obtain ⟨m1, hm1, hm1a, hm1b⟩ := query_chain h4 hA hopen hnoPos hupx hq1 hq1d (hty ▸ hq1i) hq1k
+        (by omega) (by omega) (by omega) (by omega)
+      obtain ⟨m2, hm2, hm2a, hm2b⟩ := query_chain h4 hA hopen hnoPos hupx hq2 hq2d (hty ▸ hq2i) hq2k
+        (by omega) (by omega) (by omega) (by omega)
+      have := k7b_unique h7 hm1 hm2
+      rw [this] at hm1b
+      omega
+    · -- the browser started when x was already older: its third and fourth start-up questions
+      have w1 := refreshWindow_late hcase false
+      have w2 := refreshWindow_late hcase true
+      simp only [Bool.false_eq_true, if_false] at w1
+      simp only [if_true] at w2
+      have o1 := k3bAt_of k1 (by rw [w1]; simp only; omega) hnoP
+      have o2 := k3bAt_of k2 (by rw [w2]; simp only; omega) hnoP
+      rw [w1] at o1
+      rw [w2] at o2
+      simp only at o1 o2
+      obtain ⟨q1, hq1, hq1d, hq1lo, hq1hi, kn1, hq1i, hq1k⟩ := refreshOpp_query h7 o1
+      obtain ⟨q2, hq2, hq2d, hq2lo, hq2hi, kn2, hq2i, hq2k⟩ := refreshOpp_query h7 o2
+      obtain ⟨m1, hm1, hm1a, hm1b⟩ := query_chain h4 hA hopen hnoPos hupb hq1 hq1d (hty ▸ hq1i) hq1k
+        (by omega) (by omega) (by omega) (by omega)
+      obtain ⟨m2, hm2, hm2a, hm2b⟩ := query_chain h4 hA hopen hnoPos hupb hq2 hq2d (hty ▸ hq2i) hq2k
+        (by omega) (by omega) (by omega) (by omega)
+      have := k7b_unique h7 hm1 hm2
+      rw [this] at hm1b
+      omega
 
 end Zc.Link
